@@ -157,6 +157,13 @@ def make_plan(prop, seed):
         if r.random() < 0.3:
             spec["dispatcher"]["valid_dispatch_states"] = r.choice([["idle", "repositioning", "reservebase"], ["idle"], ["idle", "repositioning", "dispatchbase"],
                                                               ["idle", "repositioning", "reservebase", "chargingbase"], ["idle", "chargingbase", "chargingstation"]])
+            if "chargingbase" in spec["dispatcher"]["valid_dispatch_states"] and r.random() < 0.6:
+                # "leave the base charger at any level": the base threshold below the matching threshold, so that the two range
+                # tests of the eligibility rule disagree for a vehicle charging at a base
+                spec["dispatcher"]["base_charging_range_km_threshold"] = r.choice([0, 0.5])
+                spec["dispatcher"]["matching_range_km_threshold"] = r.choice([5, 20, 50])
+                adv["kinds"] = ["ChargeBase", "ChargeBase", "ReserveBase", "DispatchBase", "Idle", "DispatchTrip"]
+                adv["p_instr"] = r.choice([0.2, 0.4])
     elif prop == "C16":
         if prof is not WORLD[prop]:
             mix = r.choice(["both", "builtin"])
